@@ -31,6 +31,9 @@ type Hooks struct {
 	S2C func(i int, payload []byte) ([]byte, Action)
 	// StopReadingAt > 0: the proxy never reads the i-th client message (the client's write blocks).
 	StopReadingAt int
+	// InjectS2C, if set, returns raw transport payloads that the proxy delivers to the client just
+	// before it handles server message i (e.g. the 4-byte transport error -404).
+	InjectS2C func(i int) [][]byte
 }
 
 // Link is one client<->server link through the proxy.
@@ -116,6 +119,16 @@ func NewLink(h Hooks) *Link {
 				return
 			}
 			msg = append([]byte(nil), b.Buf...)
+			if h.InjectS2C != nil {
+				for _, extra := range h.InjectS2C(i) {
+					var eb bin.Buffer
+					eb.ResetTo(append([]byte(nil), extra...))
+					l.log(Event{Dir: "inject-s2c", I: i, At: time.Now()})
+					if err := l.pc.Send(ctx, &eb); err != nil {
+						return
+					}
+				}
+			}
 			l.log(Event{Dir: "s2c", I: i, At: time.Now(), Data: append([]byte(nil), msg...)})
 			act = Forward
 			if h.S2C != nil {
